@@ -80,13 +80,68 @@ func reusePhase(c *core.Ctx) {
 			}
 		}
 	})
+	// (d') the same, but WITHOUT a second Parser.Init: the generated Parse resets its own per-parse
+	// state, and the shipped benchmark drives the parser exactly like this (Init once, Parse many).
+	// The listener writes into a buffer the harness swaps between the parses.
+	v1s := wordsOver("/*]1 ", 5)
+	v2s := wordsOver("\"a1[] ", 4)
+	vfresh := make([]string, len(v2s))
+	vfreshAcc := make([]bool, len(v2s))
+	for i, w2 := range v2s {
+		vfresh[i], vfreshAcc[i], _ = jsonParse(new(jsonp.Parser), new(jsonp.Lexer), w2)
+	}
+	core.ParallelFor(len(v1s), 16, func(i int) {
+		if c.Expired() {
+			c.Capped("parser-reuse histories (no re-Init) not completed (budget)")
+			return
+		}
+		w1 := v1s[i]
+		l := new(jsonp.Lexer)
+		var sb strings.Builder
+		for j, w2 := range v2s {
+			p := new(jsonp.Parser) // one parser value per history, so that a replay of (w1, w2) is faithful
+			p.Init(func(t jsonp.NodeType, off, end int) { fmt.Fprintf(&sb, "%v[%d,%d) ", t, off, end) })
+			ev, acc, err := jsonNoInit(p, l, &sb, w1, w2)
+			atomic.AddInt64(&pairs, 1)
+			if err != nil || ev != vfresh[j] || acc != vfreshAcc[j] {
+				c.Violate("reuse:json:second-parse-differs-from-fresh-parser", fmt.Sprintf("one json.Parser value, Init once: after Parse of %q, Parse of %q reports [%s] accepted=%v; a fresh parser reports [%s] accepted=%v (panic: %v)", w1, w2, ev, acc, vfresh[j], vfreshAcc[j], err),
+					ccase{Kind: "reuse-json-noinit", Parser: "json", Input: []byte(w1), Quoted: fmt.Sprintf("%q then %q (no re-Init)", w1, w2), Second: []byte(w2)})
+			}
+		}
+	})
 	c.Eval(pairs)
-	c.States(int64(len(w1s)))   // distinct parser states reached by a first parse
+	c.States(int64(len(w1s) + len(v1s)))   // distinct parser states reached by a first parse
 	c.Transitions(pairs)        // second parses started from those states
 	c.Set("parser_reuse_histories", pairs)
 }
 
+// jsonNoInit parses w1 and then w2 on p (already initialised once) and returns the events of the
+// second parse.
+func jsonNoInit(p *jsonp.Parser, l *jsonp.Lexer, sb *strings.Builder, w1, w2 string) (events string, accepted bool, panicErr error) {
+	panicErr = core.Guard(func() {
+		l.Init(w1)
+		p.Parse(l)
+		sb.Reset()
+		l.Init(w2)
+		accepted = p.Parse(l) == nil
+	})
+	ev := sb.String()
+	sb.Reset()
+	return ev, accepted, panicErr
+}
+
 func replayReuse(cc ccase) error {
+	if cc.Kind == "reuse-json-noinit" {
+		p, l := new(jsonp.Parser), new(jsonp.Lexer)
+		var sb strings.Builder
+		p.Init(func(t jsonp.NodeType, off, end int) { fmt.Fprintf(&sb, "%v[%d,%d) ", t, off, end) })
+		ev, acc, err := jsonNoInit(p, l, &sb, string(cc.Input), string(cc.Second))
+		fev, facc, _ := jsonParse(new(jsonp.Parser), new(jsonp.Lexer), string(cc.Second))
+		if err != nil || ev != fev || acc != facc {
+			return fmt.Errorf("second parse [%s] accepted=%v differs from fresh parser [%s] accepted=%v (panic %v)", ev, acc, fev, facc, err)
+		}
+		return nil
+	}
 	p, l := new(jsonp.Parser), new(jsonp.Lexer)
 	jsonParse(p, l, string(cc.Input))
 	ev, acc, err := jsonParse(p, l, string(cc.Second))
